@@ -109,6 +109,52 @@ func (p *Prog) escapeTable() ([][2]string, token.Pos, string) {
 			}
 		}
 	}
+	// fourth form: a function from the character to its replacement, written as a switch with constant results
+	if fn := p.Fn("mxj.escapeChars"); fn != nil {
+		for h := range p.Reach(fn) {
+			if h == fn || !p.InModule(h) || p.Exported(h) || len(h.Params) != 1 || len(h.Blocks) == 0 {
+				continue
+			}
+			bt, ok := h.Params[0].Type().Underlying().(*types.Basic)
+			if !ok || bt.Info()&types.IsInteger == 0 || h.Signature.Results().Len() < 1 || !isStringType(h.Signature.Results().At(0).Type()) {
+				continue
+			}
+			var out [][2]string
+			okAll := true
+			eachInstr(h, func(b *ssa.BasicBlock, in ssa.Instruction) {
+				ret, isR := in.(*ssa.Return)
+				if !isR {
+					return
+				}
+				rs, isC := constString(ret.Results[0])
+				if !isC {
+					okAll = false
+					return
+				}
+				if rs == "" {
+					return
+				}
+				found := false
+				for _, gd := range dominatingGuards(b) {
+					ng := normGuard(gd)
+					if bo, ok := ng.Cond.(*ssa.BinOp); ok && bo.Op == token.EQL && ng.Pol && bo.X == ssa.Value(h.Params[0]) {
+						if k, isK := constInt(bo.Y); isK {
+							out = append(out, [2]string{string(rune(k)), rs})
+							found = true
+						}
+					}
+				}
+				if !found {
+					okAll = false
+				}
+			})
+			if okAll && len(out) > 0 {
+				sort.Slice(out, func(i, j int) bool { return out[i][0] < out[j][0] })
+				p.facts["escapeSwitchFn"] = h
+				return out, h.Pos(), "switchfn"
+			}
+		}
+	}
 	return nil, token.NoPos, ""
 }
 
@@ -118,7 +164,7 @@ func ruleTableEscape(p *Prog, r *Report) {
 	const rule = "TABLE.escape"
 	tab, pos, kind := p.escapeTable()
 	if kind == "" {
-		r.Unknown(rule, "mxj.escapechars", "table literal", p.Pos(pos), "the escape table is not a literal of constant (pattern, replacement) entries in one of the recognised forms (pair list, table keyed by character, strings.NewReplacer)")
+		r.Unknown(rule, "mxj.escapechars", "table literal", p.Pos(pos), "the escape table is not a literal of constant (pattern, replacement) entries in one of the recognised forms (pair list, table keyed by character, strings.NewReplacer, switch function from the character to its replacement)")
 		return
 	}
 	seen := map[string]bool{}
@@ -148,11 +194,33 @@ func ruleTableEscape(p *Prog, r *Report) {
 	}
 	fn := p.Fn("mxj.escapeChars")
 	g := p.Globals["mxj.escapechars"]
-	if fn == nil || g == nil {
+	if fn == nil || (g == nil && kind != "switchfn") {
 		r.Anchor(rule, "mxj.escapeChars")
 		return
 	}
-	if kind != "pairs" {
+	if kind == "switchfn" {
+		h := p.facts["escapeSwitchFn"].(*ssa.Function)
+		r.OK(rule, "mxj.escapechars", "no double escaping by order", p.Pos(pos), "single-pass table (a switch on the character in "+p.Name(h)+"): each input character is replaced once, order is irrelevant")
+		// the escaping function asks the table function for every byte of its input: the call sits in a loop over the indices of the
+		// parameter and its argument is the byte at the loop index
+		uses := false
+		eachInstr(fn, func(b *ssa.BasicBlock, in ssa.Instruction) {
+			c, ok := in.(*ssa.Call)
+			if !ok || staticCallee(&c.Call) != h || innermostLoopHeader(b) == nil {
+				return
+			}
+			for v := range backwardSlice(fn, c.Call.Args[0]) {
+				if v == ssa.Value(fn.Params[0]) {
+					uses = true
+				}
+			}
+		})
+		if uses {
+			r.OK(rule, "mxj.escapeChars", "applies the table in order", p.Pos(fn.Pos()), "the table function is called in a loop on the bytes of the input")
+		} else {
+			r.Bad(rule, "mxj.escapeChars", "applies the table in order", p.Pos(fn.Pos()), "the escaping function does not call the table function on the bytes of its input in a loop")
+		}
+	} else if kind != "pairs" {
 		r.OK(rule, "mxj.escapechars", "no double escaping by order", p.Pos(pos), "single-pass table ("+kind+"): each input character is replaced once, order is irrelevant")
 		// the function must consult the table
 		uses := false
@@ -718,8 +786,88 @@ func ruleTableNoRewrite(p *Prog, r *Report) {
 			}
 		}
 		follow(fn, va, 0)
+		// other accepted idiom: the document is post-processed with json.HTMLEscape on every successful path on which the
+		// option may be on
+		escWhy := ""
+		if !sel {
+			var viaEscape func(f *ssa.Function, seed ssa.Value, depth int) bool
+			viaEscape = func(f *ssa.Function, seed ssa.Value, depth int) bool {
+				flags := map[ssa.Value]bool{}
+				if isBoolType(seed.Type()) {
+					flags[seed] = true
+				}
+				sl := forwardSlice(f, seed)
+				for in := range sl {
+					if v, ok := in.(ssa.Value); ok && isBoolType(v.Type()) {
+						flags[v] = true
+					}
+				}
+				escBlk := map[*ssa.BasicBlock]bool{}
+				eachInstr(f, func(b *ssa.BasicBlock, in ssa.Instruction) {
+					if c, ok := in.(ssa.CallInstruction); ok && isCallTo(c.Common(), "encoding/json.HTMLEscape") {
+						escBlk[b] = true
+					}
+				})
+				if len(escBlk) > 0 {
+					paths, ok := enumPaths(f, 1024)
+					if !ok {
+						return false
+					}
+					for _, pt := range paths {
+						last := pt.Blocks[len(pt.Blocks)-1]
+						ret, isRet := last.Instrs[len(last.Instrs)-1].(*ssa.Return)
+						if !isRet || len(ret.Results) == 0 || isNilConst(ret.Results[0]) {
+							continue
+						}
+						off := false
+						for _, c := range pt.Conds {
+							if v, val := boolTest(c); flags[v] && !val {
+								off = true
+							}
+						}
+						if off {
+							continue
+						}
+						through := false
+						for _, b := range pt.Blocks {
+							if escBlk[b] {
+								through = true
+							}
+						}
+						if !through {
+							escWhy = "json.HTMLEscape is applied on some paths only: the path returning at " + p.Pos(ret.Pos()) + " can be taken with safe encoding requested and does not escape"
+							return false
+						}
+					}
+					return true
+				}
+				for in := range sl {
+					c, ok := in.(ssa.CallInstruction)
+					if !ok {
+						continue
+					}
+					cm := c.Common()
+					if g := staticCallee(cm); g != nil && p.InModule(g) && depth < 3 {
+						for i, a := range cm.Args {
+							ai, isI := a.(ssa.Instruction)
+							if i < len(g.Params) && (a == seed || isI && sl[ai]) {
+								if viaEscape(g, g.Params[i], depth+1) {
+									return true
+								}
+							}
+						}
+					}
+				}
+				return false
+			}
+			if viaEscape(fn, va, 0) {
+				sel = true
+			}
+		}
 		if sel {
-			r.OK(rule, n, "safeEncoding selects the escaping mode", p.Pos(fn.Pos()), "the option value reaches json.Encoder.SetEscapeHTML")
+			r.OK(rule, n, "safeEncoding selects the escaping mode", p.Pos(fn.Pos()), "the option value reaches json.Encoder.SetEscapeHTML, or json.HTMLEscape is applied on every path on which the option may be on")
+		} else if escWhy != "" {
+			r.Bad(rule, n, "safeEncoding selects the escaping mode", p.Pos(fn.Pos()), escWhy)
 		} else {
 			r.Bad(rule, n, "safeEncoding selects the escaping mode", p.Pos(fn.Pos()), "the option does not reach json.Encoder.SetEscapeHTML: it has no influence on the escaping of <, > and &")
 		}
